@@ -15,6 +15,7 @@ from pathlib import Path
 import pydsdl
 
 from .. import api, engine, ws
+from .. import histories as H
 from ..ref import expr as X
 
 ID = "C04"
@@ -127,6 +128,7 @@ def plan(tier):
     parts = 96 if tier == "quick" else 384
     shards += [{"family": "d2", "part": p, "parts": parts} for p in range(parts)]
     shards += [{"family": "sinks", "part": p, "parts": 4} for p in range(4)]
+    shards += H.plan_shards(['nested-revisions'])
     return shards
 
 
@@ -134,6 +136,9 @@ BATCH = 64
 
 
 def cases(shard, tier):
+    if shard.get("kind") == "call-histories":
+        yield from H.cases_of(shard)
+        return
     fam = shard["family"]
     if fam == "d1full" or fam == "sinks":
         gen = depth1(LITS_FULL)
@@ -457,6 +462,8 @@ def check_sinks(case, R: engine.Acc):
 
 
 def check_case(case, R):
+    if case.get("kind") == "call-history":
+        return H.check_history(case["label"], R, H.project_expressions, 'expression-value-depends-on-earlier-calls', 'constant expressions evaluate to the mathematical value over the definitions of THIS call')
     if case["kind"] == "print":
         check_print(case, R)
     elif case["kind"] == "idents":
